@@ -481,6 +481,13 @@ def run(res, ctx):
         for kk, v in o["c"].items():
             res.count(kk, v)
         for key, (desc, rp, n, w) in o["viol"].items():
+            if "[gpwidth" in key and w is not None and dis.get(w):
+                # a register of the other width was accepted: a violation when the word is ANOTHER instruction (strh x1 -> strb w1);
+                # the same instruction with the same register numbers is leniency about the spelling (and the database has a few
+                # forms whose listed width is itself a typo: ldaxrh Xd, crc32x Xd, ldset Xs,Wd) - counted, not judged
+                if dis[w].split()[0] == key.split(":")[1]:
+                    res.count("lenient_register_width", n)
+                    continue
             res.add_violation(key, desc + decoded(w, dis), rp, n)
         for s in o["samples"]:
             if len(res.samples) < 24:
